@@ -45,6 +45,13 @@ def sh(cmd, timeout=None, cwd=None, env=None, input=None):
         return 124, out + "\n[timeout]"
 
 
+def _child_limits():
+    """no child process of a check may take the machine down: 8 GB address space, no core files"""
+    import resource
+    resource.setrlimit(resource.RLIMIT_AS, (8 << 30, 8 << 30))
+    resource.setrlimit(resource.RLIMIT_CORE, (0, 0))
+
+
 # ------------------------------------------------------------------------------------------------
 # wire format
 def enc_str(s):
@@ -218,7 +225,8 @@ class Check:
 
         def one(sh_lines):
             p = subprocess.run(argv, input="\n".join(sh_lines) + "\n", stdout=subprocess.PIPE,
-                               stderr=subprocess.PIPE, text=True, timeout=timeout, errors="replace")
+                               stderr=subprocess.PIPE, text=True, timeout=timeout, errors="replace",
+                               preexec_fn=_child_limits)
             out = p.stdout.split("\n")
             if out and out[-1] == "":
                 out.pop()
